@@ -37,12 +37,22 @@ const module = "github.com/celestiaorg/go-header"
 // traced function names (observation only: the inserted call records name and non-context parameters)
 var traced = map[string]bool{}
 
+// functions in which `for _, v := range m` (m a map) is rewritten to iterate in sorted key order:
+// hash-map iteration order is nondeterminism the explorer cannot own otherwise
+var sortMapIn = map[string]bool{}
+
 func main() {
 	repo := flag.String("repo", "/repo", "repository root")
 	out := flag.String("out", "", "output directory")
 	rt := flag.String("rt", "", "directory holding vrt/ vsync/ vatomic/ sources")
 	trace := flag.String("trace", "", "comma separated function/method names: a vrt.Trace(name, params...) call is inserted as their first statement")
+	sortmap := flag.String("sortmap", "", "comma separated function/method names whose value-only range loops iterate a map: rewritten to sorted key order")
 	flag.Parse()
+	for _, n := range strings.Split(*sortmap, ",") {
+		if n != "" {
+			sortMapIn[n] = true
+		}
+	}
 	for _, n := range strings.Split(*trace, ",") {
 		if n != "" {
 			traced[n] = true
@@ -183,6 +193,17 @@ func rewrite(path string, src []byte) ([]byte, bool, error) {
 	})
 	for _, d := range f.Decls {
 		if fd, ok := d.(*ast.FuncDecl); ok && fd.Body != nil {
+			if sortMapIn[fd.Name.Name] {
+				ast.Inspect(fd.Body, func(n ast.Node) bool {
+					if rs, ok := n.(*ast.RangeStmt); ok && rs.Value != nil {
+						if k, ok := rs.Key.(*ast.Ident); ok && k.Name == "_" {
+							rs.X = vrtCall("SortedValues", rs.X)
+							r.usedVrt, r.changed = true, true
+						}
+					}
+					return true
+				})
+			}
 			fd.Body = r.block(fd.Body)
 			r.terminate(fd.Type, fd.Body)
 			if traced[fd.Name.Name] {
